@@ -209,8 +209,8 @@ static std::vector<MV> g_vals;
 static const char* START_DOCS[] = {"{}", "[]", R"({"a":[1,2],"b":{"c":1}})", R"([[1],{"a":1}])"};
 
 static void init_alphabet() {
-    static const char* TOK[] = {"a", "b", "c", "0", "1", "2", "-", "01", "-1", "+1", "1e0", "", "a/b", "m~n", "\xc3\xa9", "18446744073709551616"};
-    std::vector<std::string> toks(TOK, TOK + 16);
+    static const char* TOK[] = {"a", "b", "c", "0", "1", "2", "-", "01", "-1", "+1", "1e0", "", "a/b", "m~n", "\xc3\xa9", "18446744073709551616", "00"};
+    std::vector<std::string> toks(TOK, TOK + 17);
     g_ptrs.push_back(Ptr{"", true, {}});
     for (auto& a : toks) g_ptrs.push_back(Ptr{ref_pointer({a}), true, {a}});
     for (auto& a : toks) for (auto& b : toks) g_ptrs.push_back(Ptr{ref_pointer({a, b}), true, {a, b}});
@@ -473,7 +473,7 @@ static void check_flat(const MV& d, bool count_case) {
 
 static TreeAlphabet flat_alphabet() {
     TreeAlphabet al;
-    al.keys = {"a", "b/~", ""};   // none of them array-index-like
+    al.keys = {"a", "b/~", "", "~1", "p/q"};   // none of them array-index-like; '~' and '/' together, each alone, and a name that reads like an escape
     al.leaves = {MV::null(), MV::uint64(1), MV::str("x"), MV::obj(), MV::arr()};
     return al;
 }
